@@ -308,10 +308,15 @@ class C15(SmallSuite):
         for i in range(n_members):
             # siblings of the same family are the interesting company
             members["M%d" % i] = _member(rng, fam0 if rng.random() < 0.75 else None)
-        if sum(1 for mm in members.values() if mm["cls"] == "Grishagin") > 1:
-            for k in list(members)[1:]:
+        if sum(1 for mm in members.values() if mm["cls"] == "Grishagin") > 2 or \
+                (sum(1 for mm in members.values() if mm["cls"] == "Grishagin") > 1 and rng.random() < 0.5):
+            # Grishagin construction is slow (0.2-0.4 s): at most two members, and two only half of the time
+            seen_g = 0
+            for k in list(members):
                 if members[k]["cls"] == "Grishagin":
-                    members[k] = _member(rng, "Hill")
+                    seen_g += 1
+                    if seen_g > 1:
+                        members[k] = _member(rng, "Hill")
         # points are chosen as fractions of the box / indices of special points; resolved in check()
         pts = {}
         for mk in members:
@@ -324,6 +329,15 @@ class C15(SmallSuite):
                     pts[mk].append({"kind": "special", "i": rng.randrange(40)})
                 else:
                     pts[mk].append({"kind": "frac", "t": [float(rng.choice([0, 1])) for _ in range(5)]})
+        if rng.random() < 0.5:
+            # sibling members of one class (same box) are asked about exactly the same points
+            first = {}
+            for mk in members:
+                c = (members[mk]["cls"], tuple(members[mk]["args"][:1]) if members[mk]["cls"] in ("GKLS", "Rastrigin", "XSquared") else ())
+                if c in first:
+                    pts[mk] = [dict(p) for p in pts[first[c]] if p["kind"] == "frac"] or pts[mk]
+                else:
+                    first[c] = mk
         ops = []
         slots = []
         n_ops = rng.randint(8, 36)
@@ -344,6 +358,11 @@ class C15(SmallSuite):
                 o = {"op": "evaluate", "slot": s, "pt": rng.randrange(len(pts[mk]))}
                 if rng.random() < 0.3:
                     o["buf"] = True      # the caller re-uses one work buffer per instance, overwritten in place
+                v = rng.random()
+                if v < 0.2:
+                    o["holder"] = "reuse"    # one value holder per instance, re-used for every evaluation
+                elif v < 0.3:
+                    o["holder"] = "preset"   # a fresh holder pre-set to a sentinel value
                 if members[mk]["cls"] == "StronginC3" and rng.random() < 0.5:
                     o["fid"] = rng.randrange(3)
                 ops.append(o)
@@ -380,6 +399,7 @@ class C15(SmallSuite):
         rep.n_exec = 2
         slots = {}
         bufs = {}
+        holders = {}
         events = []
         seen = {}
         constructed_since = {}
@@ -422,6 +442,12 @@ class C15(SmallSuite):
                         arr = np.array(pt, dtype=np.double)
                     cp = np.array(arr, copy=True)
                     holder = FunctionValue() if fid is None else FunctionValue(FunctionType.CONSTRAINT, fid)
+                    if op.get("holder") == "reuse":
+                        holder = holders.setdefault((op["slot"], fid), holder)
+                        rep.probes["reused_holder_evaluations"] += 1
+                    elif op.get("holder") == "preset":
+                        holder.value = 1e6
+                        rep.probes["preset_holder_evaluations"] += 1
                     ret = prob.Calculate(Point(arr, []), holder)
                     want = clean[(mk, tuple(pt), fid)]
                     events.append("evaluate %s %s -> %s" % (mk, core.vhex(pt), core.fhex(getattr(ret, "value", float("nan")))))
